@@ -48,6 +48,13 @@ func c02tokens() []c02tok {
 		{"time", func() any { return tsUTC }},
 		{"[]string", func() any { return []string{"a", "b c"} }},
 		{"Stringer that logs", func() any { return reentV{"re-entrant"} }},
+		{"(*int)(nil)", func() any { return (*int)(nil) }},
+		{"&int", func() any { n := 7; return &n }},
+		{"nil map", func() any { return map[string]int(nil) }},
+		{"func", func() any { return func() {} }},
+		{"nil chan", func() any { return (chan int)(nil) }},
+		{"complex", func() any { return complex(1, -2) }},
+		{"[2]int", func() any { return [2]int{1, 2} }},
 	}
 }
 
@@ -102,7 +109,7 @@ type c02case struct {
 
 var c02flagNames = map[string]slog.Flags{"Lcaller": slog.Lcaller, "LattrsR": slog.LattrsR, "LlocalTime": slog.LlocalTime}
 
-var c02dests = []string{"1 normal", "2 normal + 2 error", "2 normal + 2 error + per-level(Info,Always)"}
+var c02dests = []string{"1 normal", "2 normal + 2 error", "2 normal + 2 error + per-level(Info,Always)", "2 normal + 2 error + per-level writers (Info,Warn,Error,Always) added and removed again"}
 
 // c02configure builds the destination set; returns writer names by class.
 func c02configure(l *slog.Entry, rec *recorder, dest int) (normal, errw []string, leveled map[slog.Level][]string) {
@@ -122,6 +129,13 @@ func c02configure(l *slog.Entry, rec *recorder, dest int) (normal, errw []string
 			l.AddLevelWriter(slog.AlwaysLevel, mk("la"))
 			leveled[slog.InfoLevel] = []string{"li"}
 			leveled[slog.AlwaysLevel] = []string{"la"}
+		}
+		if dest == 3 {
+			for _, lv := range []slog.Level{slog.InfoLevel, slog.WarnLevel, slog.ErrorLevel, slog.AlwaysLevel} {
+				x := mk("gone")
+				l.AddLevelWriter(lv, x)
+				l.RemoveLevelWriter(lv, x)
+			}
 		}
 		return
 	}
@@ -362,7 +376,7 @@ func c02cases(thorough bool, emit func(c02case)) {
 		for _, e := range ents {
 			for _, f := range formats {
 				for _, lv := range levels {
-					for d := 0; d < 3; d++ {
+					for d := 0; d < 4; d++ {
 						emit(c02case{Layer: "B-msg-level-dest", Entry: e.name, MsgQ: qk(m), Args: []string{`"k"`, "1"}, Format: f, Level: int(lv), Dest: d})
 						if d == 0 && lv == slog.TraceLevel {
 							emit(c02case{Layer: "B2-after-a-prior-record", Entry: e.name, MsgQ: qk(m), Args: []string{`"k"`, "1"}, Format: f, Level: int(lv), Dest: d, Prior: true})
